@@ -15,6 +15,26 @@
 
 namespace etl::chrono {
 
+namespace detail {
+
+/// True if ratio_divide<Period2, Period> is representable, i.e. no overflow
+/// is induced in the conversion. Evaluated without forming the quotient, so
+/// that it can be used in a constraint.
+template <typename Period2, typename Period>
+inline constexpr bool duration_conversion_fits = [] {
+    constexpr auto max  = numeric_limits<intmax_t>::max();
+    constexpr auto gcdN = gcd(Period2::num, Period::num);
+    constexpr auto gcdD = gcd(Period2::den, Period::den);
+    return (Period2::num / gcdN) <= max / (Period::den / gcdD) and (Period2::den / gcdD) <= max / (Period::num / gcdN);
+}();
+
+/// True if ratio_divide<Period2, Period>::den == 1
+template <typename Period2, typename Period>
+inline constexpr bool duration_period_divides
+    = Period2::den / gcd(Period2::den, Period::den) == 1 and Period::num / gcd(Period2::num, Period::num) == 1;
+
+} // namespace detail
+
 /// \ingroup chrono
 /// @{
 
@@ -82,8 +102,9 @@ struct duration {
     /// exactly divisible by period
     template <typename Rep2, typename Period2>
         requires(
-            treat_as_floating_point_v<rep>
-            or (ratio_divide<Period2, period>::den == 1 and not treat_as_floating_point_v<Rep2>)
+            detail::duration_conversion_fits<Period2, period>
+            and (treat_as_floating_point_v<rep>
+                 or (detail::duration_period_divides<Period2, period> and not treat_as_floating_point_v<Rep2>))
         )
     constexpr duration(duration<Rep2, Period2> const& other) noexcept
         : _rep(static_cast<Rep>(
